@@ -40,7 +40,7 @@ inline std::vector<Case> all_cases(bool thorough)
         for (auto& t : ts)
             for (int sev = 0; sev < 6; sev++)
                 for (int tagged = 0; tagged < 2; tagged++)
-                    for (char form : { 'A', 'B' })
+                    for (char form : { 'A', 'B', 'C' })
                     {
                         Case c;
                         c.expr = e;
@@ -72,7 +72,7 @@ inline std::vector<Case> all_cases(bool thorough)
     // (ii) shape matrix: every item tuple of length 0..3
     for (int sev = 0; sev < 6; sev++)
         for (int tagged = 0; tagged < 2; tagged++)
-            for (char form : { 'A', 'B' })
+            for (char form : { 'A', 'B', 'C' })
                 for (int len = 0; len <= 3; len++)
                 {
                     std::vector<int> ix(len, 0);
@@ -95,14 +95,17 @@ inline std::vector<Case> all_cases(bool thorough)
         std::vector<Stmt> al = { stmt(1, false, 'A', { I_LIT }, 0),        stmt(3, true, 'B', { I_CALLB, I_INT }, 0), stmt(5, false, 'A', { I_HEX, I_INT, I_MARK }, 0),
                                  stmt(2, false, 'B', { I_NEST }, 0),       stmt(4, true, 'A', { I_CALLA }, 0),         stmt(0, false, 'B', { I_STR }, 0),
                                  stmt(5, false, 'B', { I_INT, I_DBL }, 0), stmt(1, true, 'A', { I_LIT }, 0) };
-        for (int t0 : { 0, 3 })
+        // under the plain threshold filter, and under the filters that look at the tag (a rejected tagged statement followed
+        // by an untagged one of the same severity, and the other way round)
+        for (auto et : std::vector<std::pair<int, int>>{ { 0, 0 }, { 0, 3 }, { 14, 0 }, { 15, 1 }, { 16, 3 } })
             for (int len = 1; len <= 3; len++)
             {
+                int t0 = et.second;
                 std::vector<size_t> ix(len, 0);
                 for (;;)
                 {
                     Case c;
-                    c.expr = 0;
+                    c.expr = et.first;
                     c.t[0] = t0;
                     int id = 1;
                     for (auto k : ix)
@@ -147,6 +150,20 @@ inline std::vector<Case> all_cases(bool thorough)
                         c.prog = { stmt(sev, false, 'B', ta, 1), stmt(sev, true, 'B', tb, 2) };
                         cs.push_back(c);
                     }
+        // (v) two named streams with non-nested lifetimes and a whole statement in between
+        for (int e : { 0, 12, 14 })
+            for (int sev : { 1, 3, 5 })
+                for (auto& ta : tuples)
+                    for (auto& tb : tuples)
+                        for (int zt = 0; zt < 2; zt++)
+                        {
+                            Case c;
+                            c.expr = e;
+                            c.mode = 4;
+                            c.t[0] = 2;
+                            c.prog = { stmt(sev, false, 'B', ta, 1), stmt(sev, true, 'B', tb, 2), stmt(sev, zt == 1, 'A', { I_LIT, I_CALLA }, 3) };
+                            cs.push_back(c);
+                        }
     }
     return cs;
 }
